@@ -401,3 +401,82 @@ def symbol_lookup(ctx):
             ctx.violate(q, 'denominator symbols resolve to another denominator: %s' % ', '.join('%r -> %s (table: %s)' % w for w in wrong), blks[0],
                         "Value(5, 'da') is 0.5 coin instead of 50 coins")
     ctx.floor(n, 50, 'symbol look-ups evaluated')
+
+
+SI = {'µsat': (1, 10 ** 14), 'msat': (1, 10 ** 11), 'n': (1, 10 ** 9), 'sat': (1, 10 ** 8), 'fin': (1, 10 ** 7), 'µ': (1, 10 ** 6), 'm': (1, 1000), 'c': (1, 100), 'd': (1, 10), '': (1, 1),
+      'da': (10, 1), 'h': (100, 1), 'k': (1000, 1), 'M': (10 ** 6, 1), 'G': (10 ** 9, 1), 'T': (10 ** 12, 1), 'P': (10 ** 15, 1), 'E': (10 ** 18, 1), 'Z': (10 ** 21, 1), 'Y': (10 ** 24, 1)}
+
+
+@PROP.obligation('C17.si-prefixes')
+def si_prefixes(ctx):
+    """NETWORK_DENOMINATORS maps every symbol to the factor the SI prefix (and the bitcoin unit names sat = 1e-8, fin(ney) = 1e-7,
+    msat = 1e-11) stands for: parsing and formatting read the same table, so a swapped pair (c <-> d) stays self-consistent and is
+    only visible against the standard."""
+    tab = _table(ctx)
+    n = 0
+    for k, s_ in tab:
+        if s_ not in SI:
+            ctx.unsure('config.config:NETWORK_DENOMINATORS: symbol %r has no reference value' % s_)
+            continue
+        n += 1
+        want = Fraction(*SI[s_])
+        ctx.require(k == want, 'config.config:NETWORK_DENOMINATORS', 'symbol %r stands for %s, the standard value of that prefix is %s' % (s_, k, want), None,
+                    "'5 cBTC' is read as 50000000 instead of 5000000 units")
+    ctx.saw('%d denominator symbols compared with the SI / bitcoin unit definitions' % n)
+    ctx.floor(n, 18, 'denominator symbols')
+
+
+AMOUNT_TARGETS = ('value', 'balance', 'input_total', 'output_total', 'fee', 'fees')
+
+
+@PROP.obligation('C17.provider-rounding', canaries=[
+    mut.replace_expr('services.bitcoind', 'BitcoindClient._parse_transaction', "int(round(float(txi['vout'][i.output_n_int]['value']) / self.network.denominator))", "int(float(txi['vout'][i.output_n_int]['value']) * self.units)", 'bitcoind input values truncated'),
+])
+def provider_rounding(ctx):
+    """Service clients convert the decimal coin amounts of their provider to integer units. Wherever a FLOAT enters such a conversion
+    (float(...) inside the expression) the product / quotient is rounded before int(): int(float('0.29') / 1e-8) is 28999999. Every
+    int(...) in bitcoinlib/services/*.py whose argument contains float(...) and a multiplication or division, and that feeds an amount
+    (value, balance, totals, fee of a transaction), must go through round(); fee-rate estimates are listed but not judged."""
+    n = 0
+    for modname, m in sorted(ctx.repo.modules.items()):
+        if not modname.startswith('services.'):
+            continue
+        for q, fn in m.functions.items():
+            parent = {}
+            for p_ in ast.walk(fn):
+                for ch in ast.iter_child_nodes(p_):
+                    parent[ch] = p_
+            for c in ast.walk(fn):
+                if not (isinstance(c, ast.Call) and norm(c.func) == 'int' and len(c.args) == 1):
+                    continue
+                # what the converted number is used for
+                role = None
+                pr = parent.get(c)
+                if isinstance(pr, ast.Dict):
+                    ks = [k.value for k, v in zip(pr.keys, pr.values) if v is c and isinstance(k, ast.Constant)]
+                    role = ks[0] if ks else None
+                elif isinstance(pr, ast.keyword):
+                    role = pr.arg
+                elif isinstance(pr, (ast.Assign, ast.AugAssign)):
+                    t_ = pr.targets[0] if isinstance(pr, ast.Assign) else pr.target
+                    role = t_.attr if isinstance(t_, ast.Attribute) else (t_.id if isinstance(t_, ast.Name) else None)
+                elif isinstance(pr, ast.Return):
+                    role = 'balance' if 'balance' in q else ('fee_rate' if 'fee' in q else None)
+                if role is not None and not any(a_ in str(role) for a_ in AMOUNT_TARGETS) and 'amount' not in str(role):
+                    continue
+                a = c.args[0]
+                has_float = any(isinstance(x, ast.Call) and norm(x.func) == 'float' for x in ast.walk(a))
+                arith = any(isinstance(x, ast.BinOp) and isinstance(x.op, (ast.Mult, ast.Div)) for x in ast.walk(a))
+                if not (has_float and arith):
+                    continue
+                n += 1
+                rounded = isinstance(a, ast.Call) and norm(a.func) == 'round'
+                qual = '%s:%s' % (modname, q)
+                if rounded:
+                    continue
+                if 'estimatefee' in q or 'fee_per' in norm(c):
+                    ctx.saw('%s line %d: fee-rate estimate truncated (not an amount): %s' % (qual, c.lineno, norm(c)[:80]))
+                    continue
+                ctx.violate(qual, 'a float amount is truncated, not rounded: `%s`' % norm(c)[:110], c, "an amount such as 0.29 coins becomes 28999999 units: one unit short")
+    ctx.saw('%d float-based conversions in the service clients inspected' % n)
+    ctx.floor(n, 15, 'float-based conversions')
